@@ -3,21 +3,10 @@
 import json, os, sys
 V = os.path.dirname(os.path.dirname(os.path.abspath(__file__)))
 
-TB = ("Trusted: Lean 4.33 kernel (thorough: + leanchecker), axioms propext/Classical.choice/Quot.sound only (audited per theorem on "
-      "every run), the go/ast fact extractor, the Go harness and Lean driver glue, Go's standard library as oracle. ")
-
-CLAIMED = {
- "C19": dict(
-   technique="Lean 4 proof on a model of Escape/Unescape + regenerated tables + differential correspondence",
-   text="Theorems (all inputs): Unescape(Escape s) = s for every rune string and every printable-rune oracle (unescape_escape); every ASCII "
-        "character that stops a literal run in the parser is backslashed or letter-escaped (specials_are_escaped) and every meta rune reads back "
-        "as itself after a backslash (meta_is_plain_after_backslash) — both re-checked against tables regenerated from escape.go/parser.go on every run. "
-        "Leg E ties the model to the code (Go Escape/Unescape vs model, identical output) and carries the model-free oracle "
-        "(round trip; \\A(?:Escape s)\\z compiles under option sets incl. IgnorePatternWhitespace, matches s and no single-rune edit of s).",
-   note=TB + "Modelled, not verified: the pattern parser beyond scanCharEscape and its literal-run stopper table (the 'compiles to a literal' half "
-        "is proved only at the level of the stopper table; the rest is explored by the oracle). unicode.IsPrint and the word-character test are oracle parameters.",
-   ref="DESIGN.md §4 C19"),
-}
+CLAIMED = {}
+for f in sorted(os.listdir(os.path.join(V, "manifest.d"))):
+    if f.endswith(".json"):
+        CLAIMED[f[:-5]] = json.load(open(os.path.join(V, "manifest.d", f)))
 
 NOT_YET = {}
 
